@@ -8,6 +8,7 @@ mod refmath;
 #[macro_use]
 mod runner;
 mod gen;
+mod sched;
 mod shadow;
 mod prog;
 mod zoo;
